@@ -2,11 +2,13 @@
 
 from __future__ import annotations
 
+from fractions import Fraction
+
 import ast
 
 from ..alg import Poly, Q, is_zero
 from ..repo import AnalysisError, dotted, norm_text, walk_no_nested
-from ..xeval import Interp, XObj, Opaque
+from ..xeval import Interp, XObj, Opaque, XRaise
 from ..xarray import XArray
 from ..elems import ElemLib
 
@@ -91,71 +93,13 @@ def layout_rules(ctx):
 
 
 def csr_rules(ctx):
+    """R3.3: the memoised reduction map depends on its cache key only (what the map computes, and that the values stay
+    aligned with it, is decided by interpretation in R3.9 -- the structural shape rules of earlier sessions were
+    replaced by it: they would have fired on behaviour-preserving rewrites)."""
     repo = ctx.repo
-    from ..flow import Locals
-
-    r = ctx.rule("R3.3", "cached CSR map: data and map built from the same filtered group tuple; map body reads only its key; inv from the map's own pattern", min_instances=6)
+    r = ctx.rule("R3.3", "cached CSR map: the memoised map reads nothing but its parameters (its cache key)", min_instances=1)
     simu = repo.cls(SIMU)
-    fa = simu.methods["__Assemble_csr"]
     fm = simu.methods["__Get_csr_map"]
-    L = Locals(fa.node)
-    r.instance(fn=fa.qualname)
-    map_calls = [n for n in ast.walk(fa.node) if isinstance(n, ast.Call) and (dotted(n.func) or "").endswith("__Get_csr_map")]
-    if len(map_calls) != 1:
-        raise AnalysisError("R3.3: __Assemble_csr no longer calls __Get_csr_map exactly once")
-    map_call = map_calls[0]
-    dict_param = fa.params()[1]
-    G = L.resolve(map_call.args[3]) if len(map_call.args) > 3 else None
-    Gtxt = L.text(map_call.args[3]) if G is not None else ""
-    comp = [c for c in ast.walk(G)] if G is not None else []
-    gens = [c for c in comp if isinstance(c, (ast.GeneratorExp, ast.ListComp))]
-    has_filter = bool(gens) and any(isinstance(i_, ast.Compare) and isinstance(i_.ops[0], ast.IsNot) and isinstance(i_.comparators[0], ast.Constant) and i_.comparators[0].value is None for c in gens for g in c.generators for i_ in g.ifs) and any(norm_text(g.iter) == f"{dict_param}.items()" for c in gens for g in c.generators)
-    if has_filter:
-        r.ok(f"contributing groups = {Gtxt}")
-    else:
-        r.fail(fa.qualname, "filter", fa.file, map_call.lineno, "__Assemble_csr", f"the group tuple handed to the cached map is not `{dict_param}.items()` filtered on `is not None`: {Gtxt}")
-    # bincount: weights come from a concatenation over the same tuple
-    r.instance(fn=fa.qualname)
-    bcs = [n for n in ast.walk(fa.node) if isinstance(n, ast.Call) and (dotted(n.func) or "") == "np.bincount"]
-    ok = bool(bcs)
-    detail = ""
-    map_txt = L.text(map_call)
-    for b in bcs:
-        w = next((k.value for k in b.keywords if k.arg == "weights"), None)
-        ml = next((k.value for k in b.keywords if k.arg == "minlength"), None)
-        wd = L.resolve(w.value if isinstance(w, ast.Attribute) and w.attr in ("real", "imag") else w) if w is not None else None
-        wtxt = L.text(wd) if wd is not None else ""
-        inv_txt = L.text(b.args[0]) if b.args else ""
-        ml_txt = L.text(ml) if ml is not None else ""
-        comps = [c for c in ast.walk(wd) if isinstance(c, (ast.ListComp, ast.GeneratorExp))] if wd is not None else []
-        same_groups = bool(comps) and all(L.text(g.iter) == Gtxt and not g.ifs for c in comps for g in c.generators)
-        if not ("np.concatenate" in wtxt and same_groups and inv_txt == f"{map_txt}[0]" and ml_txt == f"{map_txt}[3]"):
-            ok = False
-            detail = f"bincount({inv_txt}, weights={wtxt}, minlength={ml_txt})"
-    if ok:
-        r.ok("csr_data = bincount(map[0], weights=concatenate(values of the same tuple, unfiltered), minlength=map[3])")
-    else:
-        r.fail(fa.qualname, "data-order", fa.file, fa.lineno, "__Assemble_csr", f"the values are not summed with bincount(inv, weights=<concatenation over the same group tuple as the cached map>, minlength=nnz): {detail}")
-    r.instance(fn=fa.qualname)
-    args = [L.text(a) for a in map_call.args[:3]]
-    want = fm.params()[1:4]
-    if args == want:
-        r.ok(f"map key = ({', '.join(want)}, groups)")
-    else:
-        r.fail(fa.qualname, "key", fa.file, map_call.lineno, "__Assemble_csr", f"__Get_csr_map is called with {args}, its parameters are {want}")
-    r.instance(fn=fa.qualname)
-    csr = [n for n in ast.walk(fa.node) if isinstance(n, ast.Call) and (dotted(n.func) or "").endswith("csr_matrix") and n.args and isinstance(L.resolve(n.args[0]), ast.Tuple) and len(L.resolve(n.args[0]).elts) == 3]
-    okc = False
-    for c in csr:
-        d, ind, ptr = L.resolve(c.args[0]).elts
-        dtexts = [L.text(d)] if not (isinstance(d, ast.Name) and len(L.all_defs(d.id)) > 1) else [L.text(v) for v in L.all_defs(d.id)]
-        if all("np.bincount" in t for t in dtexts) and L.text(ind) == f"{map_txt}[1]" and L.text(ptr) == f"{map_txt}[2]":
-            okc = True
-    if okc:
-        r.ok("csr_matrix((bincount(...), map[1], map[2]))")
-    else:
-        r.fail(fa.qualname, "bincount", fa.file, fa.lineno, "__Assemble_csr", "the matrix is not built as csr_matrix((summed data, indices, indptr)) with indices / indptr taken from positions 1 / 2 of the cached map")
-    # map function: reads only parameters
     r.instance(fn=fm.qualname)
     selfreads = [norm_text(n) for n in ast.walk(fm.node) if isinstance(n, ast.Attribute) and isinstance(n.value, ast.Name) and n.value.id == "self"]
     if not fm.is_cached():
@@ -164,99 +108,6 @@ def csr_rules(ctx):
         r.fail(fm.qualname, "key-coverage", fm.file, fm.lineno, "__Get_csr_map", f"the cached map reads {sorted(set(selfreads))}, which is not part of its cache key (name, args)")
     else:
         r.ok("__Get_csr_map reads nothing but its parameters")
-    r.instance(fn=fm.qualname)
-    Lm = Locals(fm.node)
-    gparam = fm.params()[4]
-    rets = [n for n in ast.walk(fm.node) if isinstance(n, ast.Return) and isinstance(n.value, ast.Tuple) and len(n.value.elts) == 4]
-    ok = False
-    detail = ""
-    if rets:
-        inv, ind, ptr, nnz = rets[-1].value.elts
-        inv_t, ind_t, ptr_t, nnz_t = (Lm.text(x) for x in (inv, ind, ptr, nnz))
-        ss = [c for c in ast.walk(Lm.expand(inv)) if isinstance(c, ast.Call) and (dotted(c.func) or "") == "np.searchsorted"]
-        sorted_called = any(isinstance(c, ast.Call) and isinstance(c.func, ast.Attribute) and c.func.attr == "sort_indices" for c in ast.walk(fm.node))
-        hay = norm_text(ss[0].args[0]) if ss else ""
-        ok = bool(ss) and ".indices" in hay and ".indptr" in hay and sorted_called and ind_t.endswith(".indices") and ptr_t.endswith(".indptr") and nnz_t.endswith(".nnz") and ind_t[: -len(".indices")] == ptr_t[: -len(".indptr")] == nnz_t[: -len(".nnz")]
-        detail = f"return ({inv_t[:60]}..., {ind_t[-30:]}, {ptr_t[-30:]}, {nnz_t[-30:]})"
-    loop_ok = False
-    for n in ast.walk(fm.node):
-        if isinstance(n, ast.For) and isinstance(n.iter, ast.Name) and n.iter.id == gparam:
-            apps = [c for c in ast.walk(n) if isinstance(c, ast.Call) and isinstance(c.func, ast.Attribute) and c.func.attr == "append"]
-            tgt = {}
-            for c in apps:
-                tgt.setdefault(norm_text(c.func.value), []).append(Lm.text(c.args[0]))
-            if len(tgt) == 2 and all(len(v) == 2 for v in tgt.values()):
-                alltxt = " ".join(x for v in tgt.values() for x in v)
-                loop_ok = "Get_rows_e(" in alltxt and "Get_columns_e(" in alltxt and "Get_assembly_e(" in alltxt
-    if ok and loop_ok:
-        r.ok("map returns (searchsorted(pattern of its own sorted csr, rows*ncol+cols), indices, indptr, nnz); rows/cols appended per group in key order")
-    else:
-        r.fail(fm.qualname, "map-shape", fm.file, fm.lineno, "__Get_csr_map", f"the map no longer has the shape (loop over the group tuple appending rows and cols in both branches; slot = searchsorted(canonical index of its own sorted pattern, ...); return (slots, indices, indptr, nnz)): {detail}")
-    # ---- R3.5 the looked-up linear index is row*ncol + col on both sides, rows before cols in the pattern
-    r5 = ctx.rule("R3.5", "linear CSR index: both the canonical index of the pattern and the looked-up index are <row>*ncol + <col>; the pattern is built from (rows, cols) in that order", min_instances=3)
-
-    def kind(expr):
-        """ROW / COL provenance of an index expression of __Get_csr_map"""
-        t = Lm.text(expr)
-        e = Lm.resolve(expr)
-        # strip .astype(...)
-        while isinstance(e, ast.Call) and isinstance(e.func, ast.Attribute) and e.func.attr == "astype":
-            e = Lm.resolve(e.func.value)
-        if isinstance(e, ast.Attribute) and e.attr == "indices":
-            return "COL"
-        if isinstance(e, ast.Call) and (dotted(e.func) or "") == "np.repeat" and "np.arange(" in norm_text(e.args[0]) and ".indptr" in norm_text(e):
-            return "ROW"
-        if isinstance(e, ast.Call) and (dotted(e.func) or "") == "np.concatenate" and e.args and isinstance(e.args[0], ast.Name):
-            lst = e.args[0].id
-            vals = [Lm.text(c.args[0]) for c in ast.walk(fm.node) if isinstance(c, ast.Call) and isinstance(c.func, ast.Attribute) and c.func.attr == "append" and isinstance(c.func.value, ast.Name) and c.func.value.id == lst]
-            if vals and all(("Get_rows_e(" in v or "Get_assembly_e(" in v) for v in vals):
-                return "ROW"
-            if vals and all(("Get_columns_e(" in v or "np.zeros_like(" in v) for v in vals):
-                return "COL"
-        return "?"
-
-    def linear_form(expr):
-        e = Lm.resolve(expr)
-        while isinstance(e, ast.Call) and isinstance(e.func, ast.Attribute) and e.func.attr == "astype":
-            e = Lm.resolve(e.func.value)
-        if isinstance(e, ast.BinOp) and isinstance(e.op, ast.Add) and isinstance(e.left, ast.BinOp) and isinstance(e.left.op, ast.Mult):
-            return kind(e.left.left), Lm.text(e.left.right), kind(e.right)
-        return None
-
-    ssl = [c for c in ast.walk(fm.node) if isinstance(c, ast.Call) and (dotted(c.func) or "") == "np.searchsorted"]
-    for label, expr in (("pattern index", ssl[0].args[0] if ssl else None), ("looked-up index", ssl[0].args[1] if ssl and len(ssl[0].args) > 1 else None)):
-        r5.instance(fn=fm.qualname)
-        lf = linear_form(expr) if expr is not None else None
-        if lf is not None and lf[0] == "ROW" and lf[2] == "COL":
-            r5.ok(f"{label} = <row> * {lf[1]} + <col>")
-        else:
-            r5.fail(fm.qualname, f"linear-index:{label}", fm.file, fm.lineno, "__Get_csr_map", f"the {label} is not <row>*ncol + <col> (found {lf}): entries would be looked up in the transposed slot (invisible for symmetric element matrices)")
-    r5.instance(fn=fm.qualname)
-    pat = [c for c in ast.walk(fm.node) if isinstance(c, ast.Call) and (dotted(c.func) or "").endswith("csr_matrix") and c.args and isinstance(c.args[0], ast.Tuple) and len(c.args[0].elts) == 2 and isinstance(c.args[0].elts[1], ast.Tuple)]
-    if pat and [kind(x) for x in pat[0].args[0].elts[1].elts] == ["ROW", "COL"]:
-        r5.ok("pattern = csr_matrix((ones, (rows, cols)))")
-    else:
-        r5.fail(fm.qualname, "pattern-order", fm.file, fm.lineno, "__Get_csr_map", "the structure-only matrix is not built from (row indices, column indices) in that order")
-
-    # connectivity immutable outside __init__
-    r.instance(fn=GE)
-    ge = repo.cls(GE)
-    writers = []
-    for f in ge.methods.values():
-        for n in ast.walk(f.node):
-            if isinstance(n, (ast.Assign, ast.AugAssign)):
-                tg = n.targets if isinstance(n, ast.Assign) else [n.target]
-                for t in tg:
-                    base = t
-                    while isinstance(base, ast.Subscript):
-                        base = base.value
-                    if isinstance(base, ast.Attribute) and isinstance(base.value, ast.Name) and base.value.id == "self" and base.attr in ("__connect", "_GroupElem__connect"):
-                        writers.append(f.name)
-    if set(writers) <= {"__init__"} and writers:
-        r.ok("_GroupElem.__connect is assigned only in __init__ (the cached map depends on connectivity only)")
-    else:
-        f0 = ge.methods["__init__"]
-        r.fail(GE, "connect-writers", f0.file, f0.lineno, "_GroupElem", f"connectivity is written by {sorted(set(writers))}: the cached CSR map keyed by the group object would go stale")
 
 
 def slot_rules(ctx):
@@ -336,6 +187,7 @@ def slot_rules(ctx):
 
 
 def run(ctx):
+    ctx.attempt(csr_assembly_rule, ctx)
     from ..shared import group_loop_rule as _group_loop_rule
 
     ctx.attempt(_group_loop_rule, ctx, "R3.8", scope=lambda f, _s=("EasyFEA.Simulations",): f.module.name.startswith(_s), min_instances=5)
@@ -458,3 +310,160 @@ def dofs_nodes_rule(ctx, r1=None):
                     r1.ok(f"BoundaryCondition.Get_dofs_nodes({avail}, unknowns={list(unknowns)}): node*dim + index(unknown), node-major, caller's order ({how})")
                 else:
                     r1.fail(fb.qualname, f"layout:{','.join(avail)}:{','.join(unknowns)}", fb.file, fb.lineno, "Get_dofs_nodes", f"dofs for nodes ({nodes[0]!r}, {nodes[1]!r}), unknowns {list(unknowns)} among {avail} are {res.tolist() if isinstance(res, XArray) else res!r}, expected {want!r}: values given per unknown are paired with the wrong dof whenever the unknowns are not listed in canonical order")
+
+
+# ---------------------------------------------------------------------------
+# R3.9  the cached-pattern assembly, interpreted: the CSR it builds is the scatter-add of the element entries
+# ---------------------------------------------------------------------------
+
+
+class XCsr:
+    """scipy.sparse.csr_matrix as far as the assembly uses it (trusted scipy semantics: the COO constructor sums
+    duplicates and the canonical pattern is sorted by row, then column)."""
+
+    _xeval_open = True
+
+    def __init__(self, arg, shape=None):
+        if isinstance(arg, tuple) and len(arg) == 2 and all(isinstance(x, (int, Fraction)) for x in arg) and shape is None:
+            shape, arg = arg, None
+        self.shape = tuple(int(x) for x in shape)
+        self.has_canonical_format = False
+        entries = {}
+        if arg is None:
+            pass
+        elif len(arg) == 2:  # (values, (rows, cols))
+            vals, (rows, cols) = arg
+            vals, rows, cols = (list(XArray.from_nested(v).data) for v in (vals, rows, cols))
+            for v, i, j in zip(vals, rows, cols):
+                key = (int(i), int(j))
+                entries[key] = entries.get(key, 0) + v
+        elif len(arg) == 3:  # (data, indices, indptr)
+            data, indices, indptr = (list(XArray.from_nested(v).data) for v in arg)
+            for i in range(self.shape[0]):
+                for k in range(int(indptr[i]), int(indptr[i + 1])):
+                    key = (i, int(indices[k]))
+                    entries[key] = entries.get(key, 0) + data[k]
+        else:
+            raise AnalysisError("csr_matrix constructor form not modelled")
+        for (i, j) in entries:
+            if not (0 <= i < self.shape[0] and 0 <= j < self.shape[1]):
+                raise XRaise("ValueError", f"index ({i}, {j}) out of the matrix shape {self.shape}")
+        self.entries = entries
+        self._rebuild()
+
+    def _rebuild(self):
+        keys = sorted(self.entries)
+        self.indices = XArray((len(keys),), [j for _, j in keys])
+        ptr, k = [0], 0
+        for i in range(self.shape[0]):
+            k += sum(1 for (a, _) in keys if a == i)
+            ptr.append(k)
+        self.indptr = XArray((len(ptr),), ptr)
+        self.data = XArray((len(keys),), [self.entries[x] for x in keys])
+        self.nnz = len(keys)
+
+    def sort_indices(self):
+        return None
+
+    def dense(self):
+        return {k: v for k, v in self.entries.items()}
+
+
+def csr_assembly_rule(ctx):
+    """`__Assemble_csr` + `__Get_csr_map` are interpreted on two element groups with concrete connectivities and symbolic
+    element entries (matrix slot and vector slot, a group whose slot is None, first and second assembly through the
+    memoised map): the matrix they return must be, entry by entry, the sum of the element entries whose (row, column)
+    it is."""
+    from types import SimpleNamespace
+
+    from ..xeval import Opaque, _Bound
+    from ..repo import FuncInfo
+
+    repo = ctx.repo
+    r = ctx.rule("R3.9", "cached-pattern assembly interpreted: the returned CSR equals the scatter-add of the element entries (two groups, a slot absent for one group, matrix and vector slots, repeated assembly through the memoised map)", min_instances=4)
+    simu = repo.cls(SIMU)
+    fA = repo.lookup_method(simu, simu.mangle("__Assemble_csr"))
+    fM = repo.lookup_method(simu, simu.mangle("__Get_csr_map"))
+    ge = repo.cls(GE)
+    frows, fcols, fasm = (repo.method(GE, n) for n in ("Get_rows_e", "Get_columns_e", "Get_assembly_e"))
+    dof_n = 2
+    conns = {"A": [[0, 1, 2], [1, 3, 2]], "B": [[2, 3, 4, 5]]}
+    Nn = 6
+    Ndof = Nn * dof_n
+
+    def group(tag):
+        conn = conns[tag]
+        nPe = len(conn[0])
+        c = XArray((len(conn), nPe), [n for row in conn for n in row])
+        return XObj(ge, {"nPe": nPe, "Ne": len(conn), "connect": c, ge.mangle("__connect"): c, "tag": tag, "elemType": "TRI3" if tag == "A" else "QUAD4"})
+
+    gA, gB = group("A"), group("B")
+    memo = {}
+
+    def hook(fn, args, kwargs):
+        if isinstance(fn, Opaque) and fn.tag.endswith("sparse.csr_matrix"):
+            return XCsr(*args, **kwargs)
+        fi = fn.finfo if isinstance(fn, _Bound) else None
+        if fi is not None and fi is fM:
+            # the memo of @cache_computed_values: keyed by the arguments (groups by identity)
+            key = (args[0], args[1], args[2], tuple(id(g) for g in args[3]))
+            if key not in memo:
+                memo[key] = I.call_function(fM, list(args), kwargs, self_obj=fn.selfobj)
+            return memo[key]
+        return NotImplemented
+
+    I = Interp(repo, max_steps=5_000_000)
+    I.call_hook = hook
+    obj = XObj(simu, {})
+
+    def entries(tag, isMatrix, rep):
+        g = gA if tag == "A" else gB
+        n = g.attrs["nPe"] * dof_n
+        if isMatrix:
+            return XArray((g.attrs["Ne"], n, n), [Poly.var(f"{tag}{rep}_{e}_{i}_{j}") for e in range(g.attrs["Ne"]) for i in range(n) for j in range(n)])
+        return XArray((g.attrs["Ne"], n), [Poly.var(f"f{tag}{rep}_{e}_{i}") for e in range(g.attrs["Ne"]) for i in range(n)])
+
+    def dofs(tag, e, i):
+        return conns[tag][e][i // dof_n] * dof_n + i % dof_n
+
+    cases = [("matrix, both groups", True, ("A", "B")), ("matrix, second group absent (None)", True, ("A",)), ("matrix, first group absent (None)", True, ("B",)), ("vector, both groups", False, ("A", "B"))]
+    for label, isMatrix, present in cases:
+        for rep in (0, 1):  # the second pass reuses the memoised map
+            r.instance(fn=fA.qualname)
+            data = {}
+            for tag, g in (("A", gA), ("B", gB)):
+                data[g] = entries(tag, isMatrix, rep) if tag in present else None
+            try:
+                M = I.call_function(fA, [data, dof_n, Ndof, isMatrix], self_obj=obj)
+            except XRaise as e:
+                r.fail(fA.qualname, f"csr:{label}", fA.file, fA.lineno, "_Simu.__Assemble_csr", f"{label} (pass {rep + 1}): raises {e}")
+                continue
+            if not isinstance(M, XCsr):
+                r.fail(fA.qualname, f"csr:{label}", fA.file, fA.lineno, "_Simu.__Assemble_csr", f"{label}: no CSR matrix is returned")
+                continue
+            want = {}
+            for tag in present:
+                g = gA if tag == "A" else gB
+                X = data[g]
+                n = g.attrs["nPe"] * dof_n
+                for e in range(g.attrs["Ne"]):
+                    for i in range(n):
+                        if isMatrix:
+                            for j in range(n):
+                                k = (dofs(tag, e, i), dofs(tag, e, j))
+                                want[k] = want.get(k, Poly()) + X[e, i, j]
+                        else:
+                            k = (dofs(tag, e, i), 0)
+                            want[k] = want.get(k, Poly()) + X[e, i]
+            got = M.dense()
+            bad = None
+            for k in set(want) | set(got):
+                if not is_zero(Poly.of(got.get(k, 0)) - want.get(k, Poly())):
+                    bad = f"entry {k}: {got.get(k, 0)!r}, expected {want.get(k, Poly())!r}"
+                    break
+            if M.shape != ((Ndof, Ndof) if isMatrix else (Ndof, 1)):
+                bad = f"shape {M.shape}"
+            if bad:
+                r.fail(fA.qualname, f"csr:{label}", fA.file, fA.lineno, "_Simu.__Assemble_csr", f"{label} (pass {rep + 1}{', memoised map' if rep else ''}): {bad}: the global {'matrix' if isMatrix else 'vector'} is not the scatter-add of the element contributions")
+            else:
+                r.ok(f"{label}, pass {rep + 1}: CSR == scatter-add")
